@@ -1,7 +1,7 @@
 CONSTANTS
   Slot = {1, 2, 3, 4}
   Alloc = {1, 2}
-  MaxH = 5
+  MaxH = 3
   Thread = {1, 2}
 SPECIFICATION Spec
 VIEW View
